@@ -2,12 +2,209 @@
 C01 (hand-written code) — termination, iteration bounds, in-range indices / slices and absence of arithmetic
 traps for the models of Model/HandGlyf.lean ⇄ read-fonts/src/tables/glyf.rs / loca.rs (SimpleGlyph points, PointIter, resolve_coords_len, CompositeGlyph components / instructions, Anchor / Transform, Loca::get_raw / get_glyf / all_offsets_are_ascending).
 Tied to the real functions by harness group `glyf.model` (`hg.*` driver commands).
+
+Standing hypotheses (all satisfiable, see the `example`s): the data are bytes (`Bytes d`: every element
+< 256), end points are u16 values (`U16s`), a slice is no longer than `usize::MAX` (`d.length ≤ MAXU`), a
+glyph id is a u32.
 -/
 import FontVerif.Model.HandGlyf
 import FontVerif.Lemmas.ReadIter
+import FontVerif.Lemmas.HandGlyf
 set_option linter.unusedVariables false
 set_option linter.unusedSimpArgs false
 namespace FontVerif.C01HandGlyf
 open FontVerif FontVerif.ReadIter FontVerif.HandRead FontVerif.HandGlyf
+
+/-! ## simple glyphs -/
+
+/-- **`num_points` never overflows and is at most 65536.** -/
+theorem numPoints_bounded (ends : List Nat) (he : U16s ends) :
+    ∃ n, numPoints ends = some n ∧ n ≤ 65536 := by
+  obtain ⟨n, h1, h2, _⟩ := numPoints_some ends he
+  exact ⟨n, h1, h2⟩
+
+/-- **`resolve_coords_len` terminates without a panic for every byte string and every point count**:
+`data.len() + 1` trips of the `while` loop suffice (the result is never the out-of-fuel artefact), none
+of the unchecked `u32` operations (`+ 1`, `* repeats`, `* 2`, `+=`, `-=`) overflows, the result is
+`Ok` or a `ReadError`, and the lengths of an `Ok` are bounded: the flags lie inside the data, and no
+length exceeds twice the point count (so `flags + x + y` cannot overflow a u32 either). -/
+theorem resolveCoordsLen_total (d : List Nat) (hb : Bytes d) (total : Nat) (ht : total ≤ 65535) :
+    (∃ e, resolveCoordsLen d total = .err e) ∨
+    (∃ l, resolveCoordsLen d total = .ok l ∧ l.flags ≤ d.length ∧ l.flags ≤ 2 * total ∧
+      l.x ≤ 2 * total ∧ l.y ≤ 2 * total) := by
+  rcases resolveCoordsLen_facts d hb total ht with h | ⟨l, h1, h2, h3, h4, h5, _⟩
+  · exact Or.inl h
+  · exact Or.inr ⟨l, h1, h2, h3, h4, h5⟩
+
+/-- **`points_impl` never panics and splits inside the data**: the unchecked sum
+`flags + x_coords + y_coords` does not overflow, both `split_at` positions are in range, and the three
+slices handed to `PointIter::new` are consecutive parts of `glyph_data()` of the resolved lengths. -/
+theorem pointsImpl_safe (ends gd : List Nat) (hb : Bytes gd) (he : U16s ends) :
+    pointsImpl ends gd = .none ∨
+    ∃ l : Lens, l.flags + l.x + l.y ≤ gd.length ∧
+      pointsImpl ends gd = .some (PiSt.new (gd.take l.flags) ((gd.drop l.flags).take l.x) ((gd.drop l.flags).drop l.x)) := by
+  rcases pointsImpl_facts ends gd hb he with h | ⟨l, _, _, _, h1, h2, _⟩
+  · exact Or.inl h
+  · exact Or.inr ⟨l, h1, h2⟩
+
+/-- **`PointIter` is bounded by its flag bytes and its repeat counter never overflows**: for ANY three
+slices the iterator stops after at most `256 · flags.len()` points, and neither `as u16 + 1` nor
+`flag_repeats -= 1` traps. -/
+theorem pointIter_bounded (flags xs ys : List Nat) (hb : Bytes flags) (hl : flags.length ≤ MAXU) :
+    ∃ evs, run piStep (256 * flags.length + 1) (PiSt.new flags xs ys) = some evs ∧
+      evs.length ≤ 256 * flags.length ∧ (items evs).length = evs.length ∧ trapped evs = false := by
+  have hi := pinv_new flags xs ys hb hl
+  have hphi : phi (PiSt.new flags xs ys) ≤ 256 * flags.length := by
+    simp only [phi, PiSt.new, Cur.init, List.drop_zero, Nat.zero_add]
+    exact cnt_le flags hb
+  obtain ⟨evs, h1, h2, h3, h4⟩ := pi_run (256 * flags.length + 1) _ hi (by omega)
+  exact ⟨evs, h1, by omega, by omega, h4⟩
+
+/-- **`points()` yields exactly `num_points()` points or none at all**, without a panic: when
+`points_impl` accepts the glyph the iterator produces precisely the `last end point + 1` points the flag
+bytes were resolved for (so at most 65535, and at most 256 per flag byte); otherwise it is empty. -/
+theorem points_exact (ends gd : List Nat) (hb : Bytes gd) (he : U16s ends) (hl : gd.length ≤ MAXU) :
+    ∃ evs, points ends gd = some evs ∧ trapped evs = false ∧
+      ((items evs).length = 0 ∨ numPoints ends = some (items evs).length) ∧
+      (items evs).length ≤ 65535 ∧ (items evs).length ≤ 256 * gd.length := by
+  unfold points
+  rcases pointsImpl_facts ends gd hb he with h | ⟨l, last, hlast, hres, hlen, himpl, hcnt⟩
+  · rw [h]
+    refine ⟨[], ?_, rfl, Or.inl rfl, by simp [items], by simp [items]⟩
+    simp [run, piStep, advanceFlags, PiSt.new, Cur.init, Cur.read, readAt, checkedAdd, MAXU]
+  · rw [himpl]
+    dsimp only
+    have hbt := bytes_take hb l.flags
+    have hlt : (gd.take l.flags).length ≤ MAXU := by simp; omega
+    have hi := pinv_new (gd.take l.flags) ((gd.drop l.flags).take l.x) ((gd.drop l.flags).drop l.x) hbt hlt
+    have hphi : phi (PiSt.new (gd.take l.flags) ((gd.drop l.flags).take l.x) ((gd.drop l.flags).drop l.x)) = last + 1 := by
+      simp only [phi, PiSt.new, Cur.init, List.drop_zero, Nat.zero_add]
+      exact hcnt
+    have hle := cnt_le _ hbt
+    have hfd : (PiSt.new (gd.take l.flags) ((gd.drop l.flags).take l.x) ((gd.drop l.flags).drop l.x)).fd = gd.take l.flags := rfl
+    rw [hfd]
+    obtain ⟨evs, h1, h2, h3, h4⟩ := pi_run (256 * (gd.take l.flags).length + 1) _ hi (by omega)
+    obtain ⟨n, hn, _, _, hn2⟩ := numPoints_some ends he
+    have hlast65 : last < 65536 := he last (List.mem_of_getLast? hlast)
+    have hT : last + 1 ≤ 65535 := by
+      rcases resolveCoordsLen_facts gd hb (last + 1) (by
+        -- `points_impl` only calls `resolve_coords_len` when `checked_add(1)` succeeded
+        unfold pointsImpl at himpl
+        rw [hlast] at himpl
+        dsimp only at himpl
+        by_cases hov : last + 1 > U16_MAX
+        · simp [hov] at himpl
+        · simp [U16_MAX] at hov; omega) with _ | _ <;> (
+        unfold pointsImpl at himpl
+        rw [hlast] at himpl
+        dsimp only at himpl
+        by_cases hov : last + 1 > U16_MAX
+        · simp [hov] at himpl
+        · simp [U16_MAX] at hov; omega)
+    refine ⟨evs, h1, h4, Or.inr ?_, by omega, ?_⟩
+    · rw [hn, hn2 last hlast]; congr 1; omega
+    · have : (gd.take l.flags).length ≤ gd.length := by
+        simp only [List.length_take]; exact Nat.min_le_right _ _
+      have h256 : 256 * (gd.take l.flags).length ≤ 256 * gd.length := Nat.mul_le_mul_left _ this
+      omega
+
+/-- **`read_points_fast` never panics**: `n_points - i` does not underflow, `flags[i..i + count]` and
+`flags[i]` are in range, the byte counters do not overflow; the result is `Ok` with `num_points()`
+points or `Err(InvalidArrayLen)` (wrong buffer lengths) / `Err(OutOfBounds)` (missing bytes) — for every
+glyph, every pair of buffer lengths and every content of the caller's flag buffer. -/
+theorem readPointsFast_safe (ends gd : List Nat) (he : U16s ends) (hb : Bytes gd) (hl : gd.length ≤ MAXU)
+    (pl : Nat) (flags0 : List Nat) (mask : Nat) :
+    readPointsFast ends gd pl flags0 mask = .err .invalidArrayLen ∨
+    readPointsFast ends gd pl flags0 mask = .err .oob ∨
+    ∃ pts, readPointsFast ends gd pl flags0 mask = .ok pts ∧ numPoints ends = some pts.length ∧
+      pl = pts.length ∧ flags0.length = pts.length :=
+  readPointsFast_facts ends gd he hb hl pl flags0 mask
+
+/-! ## composite glyphs -/
+
+/-- **`components()` terminates within one component per six bytes**: `len + 1` calls of `next`
+suffice, at most `len / 6` components are yielded (each consumed at least flags + glyph id + two
+argument bytes, all inside the data), and no call traps. -/
+theorem components_bounded (d : List Nat) :
+    ∃ evs, components d = some evs ∧ evs.length ≤ d.length ∧ (items evs).length ≤ d.length / 6 ∧
+      trapped evs = false :=
+  components_facts d
+
+/-- **`component_glyphs_and_flags()` and `count_and_instructions()`**: the light iterator terminates
+with at most `(len + 2) / 6 ≤ len / 4` items although it skips with `advance_by` (which may leave the
+data); `count += 1` cannot overflow, the count equals the number of items, and an instruction slice
+`start .. start + len` handed out lies inside `component_data()`. -/
+theorem countAndInstructions_safe (d : List Nat) (hl : d.length ≤ MAXU) :
+    ∃ evs count instr, glyphsAndFlags d = some evs ∧ countAndInstructions d = .ok (count, instr) ∧
+      count = (items evs).length ∧ count ≤ (d.length + 2) / 6 ∧ count ≤ d.length / 4 ∧
+      trapped evs = false ∧ (∀ a k, instr = some (a, k) → a + k ≤ d.length) := by
+  obtain ⟨evs, count, instr, h1, h2, h3, h4, h5, _, h7⟩ := countAndInstructions_facts d hl
+  exact ⟨evs, count, instr, h1, h2, h3, h4, by omega, h5, h7⟩
+
+/-- `instructions()` is the second component of `count_and_instructions()` -/
+theorem instructions_eq (d : List Nat) (hl : d.length ≤ MAXU) :
+    ∃ count instr, countAndInstructions d = .ok (count, instr) ∧ instructions d = .ok instr := by
+  obtain ⟨_, count, instr, _, h2, _⟩ := countAndInstructions_facts d hl
+  exact ⟨count, instr, h2, by simp [instructions, h2]⟩
+
+/-! ## loca -/
+
+/-- **`Loca::read` succeeds exactly on whole entries**: `Ok` iff the length is a multiple of the entry
+size (then `entries · size = len`, and short entries are u16s), else `InvalidArrayLen`. -/
+theorem locaRead_total (d : List Nat) (hb : Bytes d) (isLong : Bool) :
+    (∃ l, locaRead d isLong = .ok l ∧ l.long = isLong ∧
+      l.entries.length * (if isLong then 4 else 2) = d.length ∧ LocaWf l) ∨
+    (locaRead d isLong = .error .invalidArrayLen ∧ d.length % (if isLong then 4 else 2) ≠ 0) :=
+  locaRead_facts d hb isLong
+
+/-- **`get_raw` answers exactly the indices below the entry count** and the doubling of a short
+entry does not overflow (`< 2^17`). -/
+theorem getRaw_in_range (l : Loca) (hw : LocaWf l) (idx : Nat) :
+    (idx < l.entries.length → ∃ v, l.getRaw idx = .ok (some v) ∧ (l.long = false → v < 131072)) ∧
+    (l.entries.length ≤ idx → l.getRaw idx = .ok none) :=
+  getRaw_facts l hw idx
+
+/-- **the range `get_glyf` slices out of the glyf table is in bounds**: for every glyph id (u32) no
+panic (`idx + 1` cannot overflow a usize); the only error is `OutOfBounds`; `Ok(None)` and a slice
+need `gid + 1 < entries`, i.e. `gid < len()`; a slice satisfies `start < end ≤ glyf.len()`. -/
+theorem getGlyf_range (l : Loca) (hw : LocaWf l) (glyfLen gid : Nat) (hg : gid ≤ 4294967295) :
+    l.getGlyf glyfLen gid ≠ .trap ∧ (∀ e, l.getGlyf glyfLen gid = .err e → e = .oob) ∧
+    (∀ a b, l.getGlyf glyfLen gid = .slice a b → a < b ∧ b ≤ glyfLen ∧ gid < l.len) ∧
+    (l.getGlyf glyfLen gid = .none → gid < l.len) := by
+  obtain ⟨h1, h2, h3, h4⟩ := getGlyf_facts l hw glyfLen gid hg
+  refine ⟨h1, h2, ?_, ?_⟩
+  · intro a b h
+    obtain ⟨x, y, z⟩ := h3 a b h
+    exact ⟨x, y, by unfold Loca.len; omega⟩
+  · intro h
+    have := h4 h
+    unfold Loca.len; omega
+
+/-! ## non-vacuity and concrete runs -/
+
+example : Bytes [0x09, 0xFF, 0x37] := by unfold Bytes; decide
+example : U16s [3, 7, 0xFFFF] := by unfold U16s; decide
+example : LocaWf ⟨false, [0, 5, 0xFFFF]⟩ := by unfold LocaWf; decide
+example : LocaWf ⟨true, [0, 70000]⟩ := by unfold LocaWf; decide
+
+-- one flag repeated 256 times + one more: 257 points, 513 coordinate bytes each
+example : resolveCoordsLen [0x09, 0xFF, 0x37] 257 = .ok ⟨3, 513, 513⟩ := by decide
+-- a repeat count beyond the points left is `MalformedData`, a truncated flag array `OutOfBounds`
+example : resolveCoordsLen [0x09, 5, 0, 0] 2 = .err .malformed := by decide
+example : resolveCoordsLen [0x01] 2 = .err .oob := by decide
+-- contour end 0xFFFF: `checked_add(1)` fails, `points()` is empty although `num_points()` is 65536
+example : numPoints [0xFFFF] = some 65536 := by decide
+example : pointsImpl [0xFFFF] [0x37] = .none := by decide
+example : (points [1] [0x37, 0x37, 1, 2, 3, 4]).map items = some [(1, 3, true), (3, 7, true)] := by decide +kernel
+-- three points, the flag bytes cover two: the third keeps the caller's flag
+example : readPointsFast [2] [0x37, 0x37] 3 [0, 0, 0] 1 = .err .oob := by decide
+example : readPointsFast [1] [0x37, 0x37, 1, 2, 3, 4] 2 [0, 0] 1 = .ok [(1, 3, 1), (3, 7, 1)] := by decide +kernel
+example : readPointsFast [1] [0x37, 0x37, 1, 2, 3, 4] 3 [0, 0] 1 = .err .invalidArrayLen := by decide
+-- a composite: one component with word arguments and a scale, instructions follow
+example : (components [0x01, 0x0B, 0, 5, 0xFF, 0xFE, 0, 2, 0x20, 0, 0, 1, 9]).map items =
+    some [⟨0x010B, 5, .offset (-2) 2, ⟨8192, 0, 0, 8192⟩⟩] := by decide
+example : countAndInstructions [0x01, 0x0B, 0, 5, 0xFF, 0xFE, 0, 2, 0x20, 0, 0, 1, 9] = .ok (1, some (12, 1)) := by decide
+example : (locaRead [0, 0, 0, 5, 0, 5] false).toOption.map (fun l => (l.getGlyf 20 0, l.getGlyf 20 1, l.getGlyf 20 2, l.getGlyf 9 0)) =
+    some (.slice 0 10, .none, .err .oob, .err .oob) := by decide
 
 end FontVerif.C01HandGlyf
